@@ -1,6 +1,6 @@
 from core import Case, hexs
 import core
-import re
+import re, os
 PID = "C18"
 DRIVER = "drv_heap"
 MATRIX = core.MATRIX_ZEROING     # thorough tier: -O0/-O2/-O3, clang, explicit_bzero on/off, mlock on/off
@@ -70,3 +70,25 @@ def derive(case, raw):
 
 def key(case, impl, model):
     return case.cls
+
+
+def extra(ctx):
+    """The same histories in a process that cannot lock memory (RLIMIT_MEMLOCK = 0, unprivileged): page locking is best-effort, but every stored byte,
+    revealed value, integrity verdict and release-scan result must still be what the model says (derived and compared exactly as in the main run)."""
+    if ctx["config"]["label"] != core.PRIMARY["label"]: return []
+    cases = ctx["cases"]
+    env = dict(os.environ); env["VERIF_NOMLOCK"] = "1"
+    raw = core.run_lines(ctx["drv"], [c.line for c in cases], ctx["rundir"], "nomlock", env=env)
+    if not raw or any(r.startswith("nomlock-unavailable") for r in raw[:3]):
+        ctx["extra_cov"]["no_mlock_environment"] = "unavailable (cannot drop privileges here)"; return []
+    pairs = [derive(c, r) for c, r in zip(cases, raw)]
+    model = core.run_lines(ctx["model_exe"], [p[0] for p in pairs], ctx["rundir"], "nomlockmodel")
+    out = []; diff = 0
+    for c, p, m in zip(cases, pairs, model):
+        if p[1] != m:
+            diff += 1
+            if len(out) < 2:
+                out.append(("input", "with mlock unavailable (RLIMIT_MEMLOCK=0, uid nobody) the implementation differs from the model: %s vs %s" % (p[1][:300], m[:300]),
+                            dict(key="nomlock " + c.cls, cases=[dict(case=c.line)], implementation=p[1][:600], model=m[:600], env="VERIF_NOMLOCK=1")))
+    ctx["extra_cov"]["no_mlock_environment"] = dict(cases=len(cases), differing=diff)
+    return out
